@@ -1351,10 +1351,9 @@ func buildProxyMetadataResponse(meta *metadata.ClusterMetadata, correlationID in
 	}}
 	topics := make([]protocol.MetadataTopic, 0, len(meta.Topics))
 	for _, topic := range meta.Topics {
-		if topic.ErrorCode != protocol.NONE {
-			topics = append(topics, topic)
-			continue
-		}
+		// Topics carrying an error code go through the same rewrite: any partitions
+		// they still list must not leak backend broker IDs that are absent from the
+		// advertised broker list.
 		partitions := make([]protocol.MetadataPartition, 0, len(topic.Partitions))
 		for _, part := range topic.Partitions {
 			partitions = append(partitions, protocol.MetadataPartition{
